@@ -335,6 +335,7 @@ func c09Gen(runSeed uint64, tier string) *gen.Scenario {
 	sc.Knobs["ttl_ms"] = []int64{60000, 60000, 3}[g.Intn(3)]
 	sc.Knobs["bound_iters"] = int64(g.Intn(2)) // iterators stay bound to the context of the query that opened them (database/sql style)
 	sc.Knobs["iter_latency"] = int64(g.Intn(2))
+	sc.Knobs["late_cancel"] = int64(g.Intn(2)) // with iter_latency: some iterators check the context on entry only
 	sc.Knobs["mode"] = int64(g.Intn(2)) // 0 command level, 1 server (check + listobjects)
 	sc.Knobs["drain_wait"] = int64(g.Intn(3))
 	sc.Knobs["faults"] = 0
@@ -351,6 +352,7 @@ func c09Exec(t *testing.T, sc *gen.Scenario, trace bool) *harness.Outcome {
 		// with context.WithoutCancel)
 		e.DS.BoundIterators = sc.Knob("bound_iters", 0) == 1 && sc.Knob("shared_iter", 0) == 0
 		e.DS.SetIterLatency(sc.Knob("iter_latency", 0) == 1)
+		e.DS.SetLateCancel(sc.Knob("late_cancel", 0) == 1)
 		mode := sc.Knob("mode", 0)
 		cc := cacheCfg{iter: true, sharedIter: sc.Knob("shared_iter", 0) == 1, ttl: ttl, iterMax: uint32(sc.Knob("iter_max", 1000))}
 		var cached, plain func(ctx context.Context, rq gen.Request) anyAns
